@@ -115,6 +115,9 @@ def simulate(g, hist, start, forced, K, sc, cc, dbl=False):
     return P.greedy_pages(costs, forced, K, top_cost)
 
 
+_NT = None
+
+
 def check_history(g, hist, obs, parent_pages, cands, elim, viol):
     """Evaluate one history; mutates cands/elim/viol; returns data pages."""
     n = len(hist)
@@ -122,6 +125,8 @@ def check_history(g, hist, obs, parent_pages, cands, elim, viol):
         viol.append({"klass": None, "sig": "encode-raised", "detail": f"{obs.error} hist={hist}"})
         return None
     pages = obs.data_pages()
+    if len(pages) >= 2 and _NT is not None:
+        _NT[0] += 1
     _, _, start = P.keys_of(g, hist)
     forced = forced_of(g, start)
     flat = [r for pg in pages for r in pg]
@@ -150,6 +155,7 @@ def check_history(g, hist, obs, parent_pages, cands, elim, viol):
 
 
 def eval_case(case: dict) -> dict:
+    global _NT
     g = case["gamma"]
     events = [tuple(e) for e in case.get("events") or P.alphabet(g)]
     cands = candidates(g)
@@ -158,6 +164,8 @@ def eval_case(case: dict) -> dict:
     trans = {}  # (s, e) -> set of (broke, s')
     states = set()
     n_obs = 0
+    ntn = [0]
+    _NT = ntn
     cnt = {"exact_fit": 0, "overflow_by_one": 0, "forced_breaks": 0, "single_row_overflow_pages": 0}
 
     def record(hist, obs, pages, parent_state, parent_npages, e):
@@ -273,7 +281,7 @@ def eval_case(case: dict) -> dict:
         cnt["bfs_fixpoint_reached" if not capped else "bfs_capped"] = 1
         cnt["bfs_max_history_len"] = max((len(h) for h, _ in seen.values()), default=0)
     return {
-        "viol": viol, "nt": n_obs > 1, "cnt": {k: v for k, v in cnt.items() if v}, "observations": n_obs, "evals": n_obs,
+        "viol": viol, "nt_n": ntn[0], "cnt": {k: v for k, v in cnt.items() if v}, "observations": n_obs, "evals": n_obs,
         "cands": sorted(cands), "elim": [[list(c), v] for c, v in elim.items()],
         "trans": [[list(s), list(e), sorted([b, list(s2)] for b, s2 in outs)] for (s, e), outs in trans.items()],
         "states": 0, "transitions": 0,
@@ -334,7 +342,7 @@ def plan(run):
     run.rule = ("per layout gamma (strategy x levels x nrow x reservation set x new_page/pageby_row x inner-value repetition): every "
                 "history of row events (h in heights, group change at each level / subline change) up to the depth, unmerged, as DFS "
                 "subtrees; then breadth-first closure over abstract page states to a fixpoint. quick: seed-rotated reservation sets, "
-                "thorough: all 12. non-trivial = a subtree/BFS with more than one observation; distinct = distinct (gamma, prefix)")
+                "thorough: all 12. non-trivial = distinct (gamma, history) whose document has >= 2 pages")
     run.assumptions = [
         "row heights are unambiguous: filler text is measured with Pillow to sit mid-band of its k-line height at font 1 / size 9",
         "the admissible policy family is K in [nrow - R_max, nrow] x start cost {one row, rendered rows} x continuation cost {zero, rendered rows}",
